@@ -358,8 +358,20 @@ static void ares_rand_bytes_fetch(ares_rand_state *state, unsigned char *buf,
   }
 }
 
+#ifdef CARES_VERIF
+/* Verification hook: when set, all random bytes are served by this function. */
+void (*ares_verif_rand)(unsigned char *buf, size_t len) = NULL;
+#endif
+
 void ares_rand_bytes(ares_rand_state *state, unsigned char *buf, size_t len)
 {
+#ifdef CARES_VERIF
+  if (ares_verif_rand != NULL) {
+    ares_verif_rand(buf, len);
+    return;
+  }
+#endif
+
   /* See if we need to refill the cache to serve the request, but if len is
    * excessive, we're not going to update our cache or serve from cache */
   if (len > state->cache_remaining && len < sizeof(state->cache)) {
